@@ -19,6 +19,51 @@ CHECKS = {
          "For every send index of every scenario the network is cut, a RESET is delivered to either side, or either socket is cancelled; plus all plans of up to d drop/dup/delay deviations restricted to the closing packets. Oracles: flush/shutdown Ok only with a delivered ACK covering the bytes and the peer really reading them; EOF exactly at the byte position preceding the peer's FIN; every obliged call resolves within the bound; later writes on a dead connection fail.",
          "Bound = 3 s inactivity + 6.2 s back-off + 1 s + 1 s slack; an idle endpoint whose peer vanishes silently is not obliged (no keep-alive, as the property words it: 'with data outstanding'); known finding F3-abort.",
          "DESIGN.md 5 C03"),
+ "C04": ("model_checking", 'solo',
+         'explicit-state BFS of one real connection (hand-polled, scripted peer/app, paused clock) with fingerprint de-duplication; ACK/SACK/window monitors on every emitted packet',
+         "Every history of up to the stated depth over arrival orders (in order, gap, duplicate, beyond the window, burst of two, FIN), payload sizes and reader behaviour is executed on the real VirtualSocket; after every transition every emitted packet's ack_nr, SACK bits and advertised window are compared with the reference set of packets the scripted peer sent and with the bytes actually buffered.",
+         'Bounded: depth, alphabet of boundary values, datagram bursts of at most 2 between polls, MSS 10 (4 for the ring driver; 528..652 for MTU drivers); state identity = exhaustive-destructuring dump of the whole connection + harness + monitor state, checked by an empirical bisimulation test on merged states; monitors and scripted peer trusted.',
+         'DESIGN.md 5 C04'),
+ "C05": ("model_checking", 'solo',
+         'explicit-state BFS of one real connection over ACK/window histories x writes; window / slow-start / post-RTO monitors at every first transmission',
+         'Every history of up to the stated depth over writes and ACKs with growing, shrinking, zero and re-opening windows (both Nagle settings) is executed on the real connection; at every first transmission outside loss episodes the outstanding bytes (from the wire) are compared with the last advertised window, the slow-start bound and the single-segment-after-RTO rule.',
+         'Bounded: depth, alphabet of boundary values, datagram bursts of at most 2 between polls, MSS 10 (4 for the ring driver; 528..652 for MTU drivers); state identity = exhaustive-destructuring dump of the whole connection + harness + monitor state, checked by an empirical bisimulation test on merged states; monitors and scripted peer trusted. Known finding F16 (RTO timer pushes a never-sent segment past the window).',
+         'DESIGN.md 5 C05'),
+ "C06": ("model_checking", 'solo',
+         'explicit-state BFS of one real connection over loss/ACK/SACK/stale-ACK histories x timer expiries; retransmission-discipline monitors',
+         'Every history of up to the stated depth over writes, cumulative / duplicate / stale / selective ACKs and timer expiries is executed on the real connection (two retry caps, fresh and grown congestion window, an MTU-probing path); monitors demand retransmission at the RTO deadline with doubling, fast retransmit on the third duplicate / SACK evidence, the retry cap, never retransmitting acknowledged segments and byte-stable retransmissions.',
+         'Bounded: depth, alphabet of boundary values, datagram bursts of at most 2 between polls, MSS 10 (4 for the ring driver; 528..652 for MTU drivers); state identity = exhaustive-destructuring dump of the whole connection + harness + monitor state, checked by an empirical bisimulation test on merged states; monitors and scripted peer trusted. RTO value in force read through the hook observer. Known finding F18 (delivered probe re-cut).',
+         'DESIGN.md 5 C06'),
+ "C07": ("model_checking", 'solo',
+         'explicit-state BFS of one real connection over arrival patterns x inter-arrival gaps x reader schedules; per-packet 40 ms obligations in the monitor state',
+         'Every history of up to the stated depth over data arrivals (in order, gap, gap fill, duplicate, burst, FIN), 5 ms waits, timer ticks, reads and spurious polls is executed on the real connection, also half-closed; each accepted packet carries a deadline in the monitor state, immediate-ACK triggers and the zero-window re-opening are demanded within the same virtual instant, and an idle endpoint must stay silent on a spurious poll.',
+         'Bounded: depth, alphabet of boundary values, datagram bursts of at most 2 between polls, MSS 10 (4 for the ring driver; 528..652 for MTU drivers); state identity = exhaustive-destructuring dump of the whole connection + harness + monitor state, checked by an empirical bisimulation test on merged states; monitors and scripted peer trusted.',
+         'DESIGN.md 5 C07'),
+ "C10": ("model_checking", 'solo (+exhaust C11 parser sweep)',
+         'explicit-state BFS: from 8 connection states all sequences of hostile packets (bounded depth) mixed with benign actions, under catch_unwind, with bug-error and buffer-bound monitors',
+         'From established / accepted / in-flight / out-of-order-held / fast-recovery / RTO-mode / FIN-wait / last-ack states every sequence (up to the stated depth) over ~50 hostile packets (absurd ack/seq/window, SACK lengths 0..36, oversize payloads, types illegal in the state, bursts) and benign application actions is executed; no panic, no Bug* error, buffering within the configured bounds.',
+         'Bounded: depth, alphabet of boundary values, datagram bursts of at most 2 between polls, MSS 10 (4 for the ring driver; 528..652 for MTU drivers); state identity = exhaustive-destructuring dump of the whole connection + harness + monitor state, checked by an empirical bisimulation test on merged states; monitors and scripted peer trusted. Datagrams enter as bytes through the library parser exactly as in the socket dispatcher; a starved connection task (unbounded inbound channel) is outside the explored schedules.',
+         'DESIGN.md 5 C10'),
+ "C14": ("model_checking", 'exhaust + solo + duo',
+         'exhaustive sweep of the real SegmentSizes over all link MTUs x families x path limits; explicit-state BFS of one connection on probing paths; deviation-bounded fault enumeration over two real sockets on blackhole / EMSGSIZE paths',
+         'All link MTUs 49..1500, both families, every true path limit: the binary search settles on the largest size that fits within the logarithmic probe bound and never exceeds the link ceiling whatever sizes the peer uses; BFS of one connection under blackhole / EMSGSIZE / peer payload sizes checks datagram sizes, the proven-size rule, the single-newest-probe rule and the bytes after failed probes; two real sockets transfer 60 kB over the path families with an extra dropped datagram and must keep the stream intact and settle.',
+         'Bounded: depth, alphabet of boundary values, datagram bursts of at most 2 between polls, MSS 10 (4 for the ring driver; 528..652 for MTU drivers); state identity = exhaustive-destructuring dump of the whole connection + harness + monitor state, checked by an empirical bisimulation test on merged states; monitors and scripted peer trusted. Known finding F18.',
+         'DESIGN.md 5 C14'),
+ "C17": ("model_checking", 'solo + duo',
+         'explicit-state BFS from every handshake/teardown state over peer packets x app actions x timers with wire-rule monitors R1-R4; deviation-bounded fault plans for FIN emission',
+         "From incoming, established, in-flight, FIN-wait-1/2 and last-ack states (wait_for_last_ack on and off) every history up to the stated depth is executed; monitors enforce the SYN-ACK rules, FIN numbering / ordering / stability, in-sequence-only honouring of the peer's FIN with immediate ACK and own FIN, and silence after RESET; over two real sockets every plan of <= d deviations must see the FIN on the wire at the instant all data is acknowledged.",
+         'Bounded: depth, alphabet of boundary values, datagram bursts of at most 2 between polls, MSS 10 (4 for the ring driver; 528..652 for MTU drivers); state identity = exhaustive-destructuring dump of the whole connection + harness + monitor state, checked by an empirical bisimulation test on merged states; monitors and scripted peer trusted.',
+         'DESIGN.md 5 C17'),
+ "C18": ("model_checking", 'solo',
+         'explicit-state BFS of one real connection over write-size sequences x ACK timings x both Nagle settings',
+         'Every history up to the stated depth over writes of 1, mss-1, mss, mss+1, 2mss+1 bytes and ACKs with small and large windows is executed with Nagle on and off; a partial first transmission while earlier data is unacknowledged (unless cut by the peer window), buffered bytes left unsent when the pipe drains, and (Nagle off) bytes held back although window and congestion window leave room are violations.',
+         'Bounded: depth, alphabet of boundary values, datagram bursts of at most 2 between polls, MSS 10 (4 for the ring driver; 528..652 for MTU drivers); state identity = exhaustive-destructuring dump of the whole connection + harness + monitor state, checked by an empirical bisimulation test on merged states; monitors and scripted peer trusted. Congestion window read through the hook observer.',
+         'DESIGN.md 5 C18'),
+ "C19": ("model_checking", 'solo + exhaust',
+         'explicit-state BFS of one real connection over write sizes x ACK schedules x buffer settings; exhaustive op sequences on the real TX ring vs a VecDeque',
+         'BFS over writes of 1..40 bytes, partial / full / zero-window ACKs and flushes for (initial, max) = (8,8), (8,32), (32,8): accepted minus acknowledged never exceeds the limit, a parked writer is woken in the step that frees space, wire payload stays correct across growth; all 8^depth sequences of write / truncate / grow on the real UserTx ring agree with a VecDeque reference.',
+         'Bounded: depth, alphabet of boundary values, datagram bursts of at most 2 between polls, MSS 10 (4 for the ring driver; 528..652 for MTU drivers); state identity = exhaustive-destructuring dump of the whole connection + harness + monitor state, checked by an empirical bisimulation test on merged states; monitors and scripted peer trusted.',
+         'DESIGN.md 5 C19'),
  "C08": ("fault_enumeration", "duo",
          "deviation-bounded loss enumeration on closing packets over 3 connect/close cycles under a connection limit of 1, plus exhaustive abort-point enumeration",
          "3 cycles of connect/transfer/close on one socket pair with max_live_vsocks=1 under every plan of up to d drop/dup deviations on the closing packets: each connection object must end within the bound after the application let go, nothing may be emitted for it afterwards, the table must be empty, and the next connect/accept must succeed; every cut/RESET/cancel point of every scenario: cancelled sockets' tasks end within 1 ms and their halves report errors.",
